@@ -11,7 +11,7 @@ device, `WRAPMODE` on and off, and every pair (row of `CPUProps[]`, SPEC device)
 the seven devices the check assembles for (`C14_avr_table`).
 
 Two deviations of the real code are recorded as findings and excluded by hypotheses:
-* `pbitTrunc` - `CBI/SBI/SBIC/SBIS` with an address ≥ 512 inside the data space (assembled modulo 512),
+* `pbitTrunc` - `CBI/SBI/SBIC/SBIS` with an address ≥ 65536 inside the data space (assembled modulo 65536; no device has one),
 * the instructions the manual marks "not available in all devices" (`JMP/CALL/ELPM/EIJMP/EICALL`), which codeavr.c gates
   by core class only: `C14_avr_range` asks for the two gates to agree (`hsize`), which they do on five of the seven devices.
 -/
@@ -184,15 +184,17 @@ example : legal ⟨1, 12, false⟩ 0 ⟨.LDI, [16, 255]⟩ = true ∧ legal ⟨1
 
 /-! ### findings -/
 
-/-- **Known finding** (`avr-pbit-address-truncated-modulo-512`): on the AT90S8515 (data space up to 0x25F) `SBI 512,3` passes
-`ChkRange(Addr, 0, SegLimits[SegData])`, is cut to nine bits and assembled as `SBI 0,3` - an operand outside 0..31 is emitted
-truncated instead of being rejected. -/
-theorem C14_finding_avr_pbit_trunc :
-    ∃ p c, avrDevice 1 = some (p, c) ∧ pbitTrunc p ⟨.SBI, [512, 3]⟩ ∧
-      okBytes (IAvr.encode ⟨p, false, 0⟩ ⟨.SBI, [512, 3]⟩) = some [b 0x03, b 0x9a] ∧
-      decode c 0 [b 0x03, b 0x9a] = some (⟨.SBI, [0, 3]⟩, 2) ∧ legal c 0 ⟨.SBI, [512, 3]⟩ = false ∧
-      isOk (IAvr.encode ⟨p, false, 0⟩ ⟨.SBI, [32, 3]⟩) = false :=
-  ⟨_, _, rfl, ⟨rfl, 512, 3, rfl, by decide, by decide⟩, by decide, by decide, by decide, by decide⟩
+/-- **Repaired finding** (`avr-pbit-address-truncated-modulo-512`, repair 99afd52): on the AT90S8515 (data space up to 0x25F)
+`SBI 512,3` used to pass `ChkRange(Addr, 0, SegLimits[SegData])`, be cut to nine bits and be assembled as `SBI 0,3`; the address
+now keeps sixteen bits and the statement is refused like `SBI 32,3`, as the opcode map demands.  (The side condition
+`pbitTrunc` of the theorems above now only excludes addresses of 65536 and more inside the data space, which no device of
+the table has.) -/
+theorem C14_avr_pbit_not_truncated :
+    ∃ p c, avrDevice 1 = some (p, c) ∧
+      isOk (IAvr.encode ⟨p, false, 0⟩ ⟨.SBI, [512, 3]⟩) = false ∧ legal c 0 ⟨.SBI, [512, 3]⟩ = false ∧
+      isOk (IAvr.encode ⟨p, false, 0⟩ ⟨.SBI, [32, 3]⟩) = false ∧
+      okBytes (IAvr.encode ⟨p, false, 0⟩ ⟨.SBI, [31, 3]⟩) = some [b 0xfb, b 0x9a] :=
+  ⟨_, _, rfl, by decide, by decide, by decide, by decide⟩
 
 /-- **Known finding** (`avr-size-gated-instruction-accepted-on-small-device`): the ATmega8 (8K bytes of flash, 12-bit program
 counter) is given `JMP`, `CALL`, `ELPM`, `EIJMP`, `EICALL`, and the ATmega128 `EIJMP/EICALL`, because codeavr.c gates them by
